@@ -34,7 +34,7 @@ func (c *Ctx) nilFor(b *Body) *nilAn {
 	imp := map[*ssa.Function]string{}
 	if b.Name == "v5" {
 		ai := b.findApply()
-		vo := fnOf(b.Lib, "validateOperation")
+		vo := b.roleFn("validateOperation")
 		if ai != nil && vo != nil {
 			byHandler := map[*ssa.Function][]string{}
 			for k, h := range ai.handlers {
@@ -181,9 +181,12 @@ func ruleNil(c *Ctx) {
 					l.add("R-NIL", b.Name, key, b.posOf(s.Ins), Discharged, "value does not originate from any declared nil source ("+roleOf(s.V)+")", true)
 					continue
 				}
-				if ex, ok := nilExceptions[fn.Name()]; ok && fn.Signature.Recv() == nil {
+				if ex, ok := nilExceptions[b.roleNameOf(fn)]; ok && fn.Signature.Recv() == nil {
 					done := false
 					for sub, reason := range ex {
+						if g := b.roleFn("pruneAryNulls"); g != nil {
+							sub = strings.ReplaceAll(sub, "pruneAryNulls", g.Name())
+						}
 						if strings.Contains(key, sub) {
 							l.add("R-NIL", b.Name, key, b.posOf(s.Ins), Excepted, reason, true)
 							done = true
@@ -701,7 +704,7 @@ func ruleTypestate(c *Ctx) {
 	}
 	sort.Strings(prodNames)
 	l.stat("R-TYPESTATE").Extra["may_set_eAry_with_nil_ary"] = prodNames
-	isArrayFn := fnOf(b.Lib, "isArray")
+	isArrayFn := b.roleFn("isArray")
 	for _, fn := range a.fns {
 		for _, ci := range callsTo(fn, func(cc *ssa.CallCommon) bool { f := cc.StaticCallee(); return f != nil && prod[f] }) {
 			callee := ci.Common().StaticCallee()
@@ -711,7 +714,7 @@ func ruleTypestate(c *Ctx) {
 				l.add("R-TYPESTATE", "v5", key, b.posOf(ci), Discharged, why, true)
 				continue
 			}
-			if why, ok := typestateExceptions[fn.Name()]; ok && fn.Signature.Recv() == nil {
+			if why, ok := typestateExceptions[b.roleNameOf(fn)]; ok && fn.Signature.Recv() == nil {
 				l.add("R-TYPESTATE", "v5", key, b.posOf(ci), Excepted, why, true)
 				continue
 			}
@@ -833,7 +836,7 @@ func ruleStaleRaw(c *Ctx) {
 	for _, b := range c.bodies() {
 		a := c.nilFor(b)
 		l := c.L
-		isArrayFn := fnOf(b.Lib, "isArray")
+		isArrayFn := b.roleFn("isArray")
 		// successState[f] = the constant f stores into recv.which (if exactly one)
 		successState := map[*ssa.Function]int64{}
 		for _, fn := range a.fns {
